@@ -20,9 +20,21 @@ def reg_adt(b):
     return BACKENDS[b]["crate"] + "::config::Register"
 
 
+_LABELS = [0]
+
+
+def label_hook(I, p, fr, t, args):
+    """model of axcut2backend::fresh_labels::fresh_label (a `static mut` counter): a number distinct from all earlier ones"""
+    ck = t.get("resolved_key") or t.get("callee_key") or ""
+    if ck.endswith("fresh_labels::fresh_label"):
+        _LABELS[0] += 1
+        return _LABELS[0]
+    return NotImplemented
+
+
 def fold(ctx, key, args, hooks=(), **kw):
     kw.setdefault("max_depth", 14)
-    I = interp.Interp(ctx.fx, hooks=[docmodel.doc_hook] + list(hooks), **kw)
+    I = interp.Interp(ctx.fx, hooks=[docmodel.doc_hook, label_hook] + list(hooks), **kw)
     return I, I.run(ctx.fx.fn(key), args)
 
 
